@@ -1,5 +1,8 @@
 import RustCcModel.Model.Protocol
 import RustCcModel.Model.Bits
+import RustCcModel.Model.Shapes
+import RustCcModel.Model.Layout
+import RustCcModel.Model.Derive
 open RustCc
 
 structure DState where
@@ -149,10 +152,86 @@ partial def policyLoop (h out : IO.FS.Stream) : IO Unit := do
   | _ => out.putStrLn "bad"
   policyLoop h out
 
+/-! Shape descriptors: `name` or `name(arg,...)`; `cc` leaves are numbered in order of appearance. -/
+open Shapes in
+mutual
+partial def parseShape (cs : List Char) (next : Nat) : Option (Shape × List Char × Nat) :=
+  let (nameCs, rest) := cs.span fun c => c.isAlphanum
+  let name := String.ofList nameCs
+  match rest with
+  | '(' :: rest' =>
+    match parseArgs rest' next [] with
+    | some (args, rest'', next') =>
+      let mk : Option Shape := match name, args with
+        | "tuple", l => some (.tuple l) | "arr", l => some (.arr l) | "slice", l => some (.slice l) | "vec", l => some (.vec l)
+        | "box", [x] => some (.box x) | "some", [x] => some (.some x) | "ok", [x] => some (.ok x) | "err", [x] => some (.err x)
+        | "cell0", [x] => some (.cell false x) | "cell1", [x] => some (.cell true x) | "md", [x] => some (.md x) | "aus", [x] => some (.aus x)
+        | _, _ => none
+      mk.map fun s => (s, rest'', next')
+    | none => none
+  | _ =>
+    match name with
+    | "cc" => some (.cc next, rest, next + 1)
+    | "weak" => some (.weak, rest, next) | "cleaner" => some (.cleaner, rest, next) | "cleanable" => some (.cleanable, rest, next)
+    | "phantom" => some (.phantom, rest, next) | "prim" => some (.prim, rest, next) | "none" => some (.none, rest, next)
+    | "arr" => some (.arr [], rest, next) | "vec" => some (.vec [], rest, next) | "slice" => some (.slice [], rest, next)
+    | _ => none
+partial def parseArgs (cs : List Char) (next : Nat) (acc : List Shapes.Shape) : Option (List Shapes.Shape × List Char × Nat) :=
+  match cs with
+  | ')' :: rest => some (acc.reverse, rest, next)
+  | ',' :: rest => parseArgs rest next acc
+  | _ =>
+    match parseShape cs next with
+    | some (s, rest, next') => parseArgs rest next' (s :: acc)
+    | none => none
+end
+
+mutual
+/-- What one `finalize` call on the container forwards to (same traversal; a mutably borrowed cell is skipped). -/
+partial def finVisit : Shapes.Shape → List Nat
+  | .cc i => [i]
+  | .tuple l | .arr l | .slice l | .vec l => (l.map finVisit).flatten
+  | .box s | .some s | .ok s | .err s | .md s | .aus s => finVisit s
+  | .cell b s => if b then [] else finVisit s
+  | _ => []
+end
+
+partial def shapesLoop (h out : IO.FS.Stream) : IO Unit := do
+  let line ← h.getLine
+  if line.isEmpty then return ()
+  match splitToks line with
+  | ["shape", desc, n] =>
+    match parseShape desc.toList 0, n.toNat? with
+    | some (s, [], _), some n =>
+      let v := Shapes.visit s
+      let f := finVisit s
+      let counts := (List.range n).map fun i => toString (v.count i)
+      let fins := (List.range n).map fun i => toString (f.count i)
+      out.putStrLn s!"shape {desc} counts={",".intercalate counts} fin={",".intercalate fins}"
+    | _, _ => out.putStrLn s!"shape {desc} bad-descriptor"
+  | ["layout", name, hdrEnd, hdrAlign, size, align] =>
+    match hdrEnd.toNat?, hdrAlign.toNat?, size.toNat?, align.toNat? with
+    | some he, some ha, some sz, some al =>
+      out.putStrLn s!"layout {name} size={sz} align={al} box={Layout.boxSize he ha sz al},{Layout.boxAlign ha al} off={Layout.offset he al} ok"
+    | _, _, _, _ => out.putStrLn "bad"
+  | "derive" :: id :: variant :: rest =>
+    -- `derive <id> <variant index> <variant ignored 0|1> <field ignored flags e.g. 0100>`
+    match variant.toNat?, rest with
+    | some _, [vi, flags] =>
+      let fields := flags.toList.filter (fun c => c = '0' ∨ c = '1') |>.map fun c => ({ ignored := c = '1' } : Derive.Field)
+      let v : Derive.Variant := { ignored := vi = "1", fields := fields }
+      let vis := Derive.visitedOf v
+      let counts := (List.range fields.length).map fun i => toString (vis.count i)
+      out.putStrLn s!"derive {id} counts={",".intercalate counts}"
+    | _, _ => out.putStrLn "bad"
+  | _ => out.putStrLn "bad"
+  shapesLoop h out
+
 def main (args : List String) : IO Unit := do
   let stdin ← IO.getStdin
   let stdout ← IO.getStdout
   match args with
   | ["words"] => wordsTable stdout
   | ["policy"] => policyLoop stdin stdout
+  | ["shapes"] => shapesLoop stdin stdout
   | _ => loop stdin stdout {}
